@@ -31,13 +31,15 @@ Section Spec.
   Variable Msg : Type.
   Variable dec : list Z -> option Msg.
 
-  (** a frame followed by anything *)
-  Lemma spec_Unmarshal_frame e32 ver body rest t m :
-    zlen ver <= 16 -> no_trailing_nul ver = true -> zlen body < 2 ^ 63 ->
+  (** a frame followed by anything; whatever the version bytes, it is read back
+      without its trailing NULs *)
+  Lemma spec_Unmarshal_frame_anyver e32 ver body rest t m :
+    zlen ver <= 16 -> zlen body < 2 ^ 63 ->
     dec body = Some m -> term_ok t body rest ->
-    spec_Unmarshal dec e32 (frame ver body ++ rest) t = (32 + zlen body, ver, None, Some m, rest).
+    spec_Unmarshal dec e32 (frame ver body ++ rest) t
+      = (32 + zlen body, strip_nul ver, None, Some m, rest).
   Proof.
-    intros Hv Hnul Hlen Hdec Hterm. pose proof (zlen_nonneg body) as Hb0.
+    intros Hv Hlen Hdec Hterm. pose proof (zlen_nonneg body) as Hb0.
     pose proof (zlen_nonneg rest) as Hr0.
     unfold frame. rewrite <- app_assoc.
     destruct (frame_header_fields ver (zlen body) (body ++ rest) Hv) as (F16 & Fh & Fb & F32); [lia|].
@@ -61,7 +63,17 @@ Section Spec.
       - congruence.
       - rewrite He in Hne. discriminate. }
     rewrite firstn_zlen_app, skipn_zlen_app, Hdec.
-    unfold pad16. rewrite strip_nul_pad by assumption. reflexivity.
+    unfold pad16. rewrite strip_nul_pad_gen. reflexivity.
+  Qed.
+
+  Lemma spec_Unmarshal_frame e32 ver body rest t m :
+    zlen ver <= 16 -> no_trailing_nul ver = true -> zlen body < 2 ^ 63 ->
+    dec body = Some m -> term_ok t body rest ->
+    spec_Unmarshal dec e32 (frame ver body ++ rest) t = (32 + zlen body, ver, None, Some m, rest).
+  Proof.
+    intros Hv Hnul Hlen Hdec Hterm.
+    rewrite spec_Unmarshal_frame_anyver with (m := m) by assumption.
+    rewrite strip_nul_id by assumption. reflexivity.
   Qed.
 
   (** a strict prefix of a frame *)
@@ -198,7 +210,7 @@ Section Codec.
     bytes_ok ver -> bytes_ok (enc m) -> bytes_ok rest ->
     chunks_ok cs -> concat cs = frame ver (enc m) ++ rest -> zlen (concat cs) < 2 ^ 63 ->
     term_ok t (enc m) rest ->
-    (length (concat cs) + 2 <= fuel)%nat ->
+    (length cs + length (concat cs) + 2 <= fuel)%nat ->
     exists cs',
       Unmarshal dec cread grow fuel (cs, t)
         = Some (32 + zlen (enc m), ver, None, Some m, (cs', t))
@@ -214,13 +226,37 @@ Section Codec.
     - rewrite Hcs, zlen_app, zlen_frame in Hlen by assumption. pose proof (zlen_nonneg rest). lia.
   Qed.
 
+  (** the same for a version that may end in NULs (or be all NULs): what comes back
+      is the version without its trailing NULs *)
+  Theorem Unmarshal_frame_anyver m ver rest cs t fuel :
+    dec (enc m) = Some m ->
+    zlen ver <= 16 ->
+    bytes_ok ver -> bytes_ok (enc m) -> bytes_ok rest ->
+    chunks_ok cs -> concat cs = frame ver (enc m) ++ rest -> zlen (concat cs) < 2 ^ 63 ->
+    term_ok t (enc m) rest ->
+    (length cs + length (concat cs) + 2 <= fuel)%nat ->
+    exists cs',
+      Unmarshal dec cread grow fuel (cs, t)
+        = Some (32 + zlen (enc m), strip_nul ver, None, Some m, (cs', t))
+      /\ concat cs' = rest /\ chunks_ok cs'.
+  Proof.
+    intros Hdec Hv Bv Bb Br Hok Hcs Hlen Hterm Hfuel.
+    destruct (Unmarshal_spec Msg dec grow Hgrow cs t fuel Hok) as (n & v & e & mm & cs' & HU & Hok' & HS);
+      try assumption.
+    { rewrite Hcs. apply bytes_ok_app. split; [apply frame_bytes|]; assumption. }
+    rewrite Hcs in HS.
+    rewrite (spec_Unmarshal_frame_anyver Msg dec EEOF ver (enc m) rest t m) in HS; try assumption.
+    - inversion HS; subst. exists cs'. rewrite HU. auto.
+    - rewrite Hcs, zlen_app, zlen_frame in Hlen by assumption. pose proof (zlen_nonneg rest). lia.
+  Qed.
+
   (** C07: every cut point of a frame, every chunking of the prefix *)
   Theorem Unmarshal_cut m ver k cs t fuel :
     zlen ver <= 16 -> no_trailing_nul ver = true ->
     bytes_ok ver -> bytes_ok (enc m) -> zlen (enc m) < 2 ^ 63 - 32 ->
     0 <= k < 32 + zlen (enc m) ->
     chunks_ok cs -> concat cs = firstn (Z.to_nat k) (frame ver (enc m)) ->
-    (length (concat cs) + 2 <= fuel)%nat ->
+    (length cs + length (concat cs) + 2 <= fuel)%nat ->
     Unmarshal dec cread grow fuel (cs, t)
       = Some (k, (if k <? 32 then [] else ver),
               Some (if k <? 32 then end_err t k EEOF else end_err t (k - 32) EEOF), None, ([], t)).
@@ -263,7 +299,7 @@ Section Codec.
     bytes_ok ver -> bytes_ok (enc m) -> zlen (enc m) < 2 ^ 63 - 32 ->
     0 <= k < 32 + zlen (enc m) ->
     chunks_ok cs -> concat cs = firstn (Z.to_nat k) (frame ver (enc m)) ->
-    (length (concat cs) + 2 <= fuel)%nat ->
+    (length cs + length (concat cs) + 2 <= fuel)%nat ->
     Unmarshal dec cread grow fuel (cs, t)
       = Some (k, (if k <? 32 then [] else ver),
               Some (if (k =? 0) || (k =? 32) then EEOF else EUnexpectedEOF), None, ([], t)).
@@ -280,7 +316,7 @@ Section Codec.
     bytes_ok ver -> bytes_ok (enc m) -> zlen (enc m) < 2 ^ 63 - 32 ->
     0 <= k < 32 + zlen (enc m) ->
     chunks_ok cs -> concat cs = firstn (Z.to_nat k) (frame ver (enc m)) ->
-    (length (concat cs) + 2 <= fuel)%nat ->
+    (length cs + length (concat cs) + 2 <= fuel)%nat ->
     Unmarshal dec cread grow fuel (cs, t)
       = Some (k, (if k <? 32 then [] else ver), Some (t_err t), None, ([], t)).
   Proof.
@@ -293,7 +329,7 @@ Section Codec.
   Theorem Unmarshal_hsize cs t fuel :
     chunks_ok cs -> bytes_ok (concat cs) -> zlen (concat cs) < 2 ^ 63 ->
     32 <= zlen (concat cs) -> le_val (firstn 8 (skipn 16 (concat cs))) <> 32 ->
-    (length (concat cs) + 2 <= fuel)%nat ->
+    (length cs + length (concat cs) + 2 <= fuel)%nat ->
     exists cs',
       Unmarshal dec cread grow fuel (cs, t)
         = Some (32, strip_nul (firstn 16 (concat cs)), Some EInvalidHeaderSize, None, (cs', t))
@@ -311,7 +347,7 @@ Section Codec.
     chunks_ok cs -> bytes_ok (concat cs) -> zlen (concat cs) < 2 ^ 63 ->
     32 <= zlen (concat cs) -> le_val (firstn 8 (skipn 16 (concat cs))) = 32 ->
     2 ^ 63 <= le_val (firstn 8 (skipn 24 (concat cs))) ->
-    (length (concat cs) + 2 <= fuel)%nat ->
+    (length cs + length (concat cs) + 2 <= fuel)%nat ->
     exists cs',
       Unmarshal dec cread grow fuel (cs, t)
         = Some (32, strip_nul (firstn 16 (concat cs)), Some EInvalidBodySize, None, (cs', t))
@@ -329,7 +365,7 @@ Section Codec.
       terminal): Unmarshal returns, and a success means a complete frame. *)
   Theorem Unmarshal_total cs t fuel :
     chunks_ok cs -> bytes_ok (concat cs) -> zlen (concat cs) < 2 ^ 63 ->
-    (length (concat cs) + 2 <= fuel)%nat ->
+    (length cs + length (concat cs) + 2 <= fuel)%nat ->
     exists n ver err m cs',
       Unmarshal dec cread grow fuel (cs, t) = Some (n, ver, err, m, (cs', t))
       /\ 0 <= n <= zlen (concat cs)
